@@ -6,7 +6,7 @@
     for messages without embedded DHCPv4 the condition always holds
     ([no_growth]). *)
 From DV Require Import Base.Bytes Label.Model Label.RoundTrip V4.Model V4.OptProofs V4.Proofs V4.RoundTrip V4.Canon V4.Fixpoint
-                       V6.Model V6.Total V6.Wf V6.Comb V6.RoundTrip V6.Image.
+                       V6.Model V6.Total V6.Wf V6.Comb V6.RoundTrip V6.Image V4.Length.
 
 Arguments labels_from_bytes : simpl never.
 
@@ -375,11 +375,13 @@ Proof.
   split; [apply parse_option_enc; eapply dec_opt_wf; eauto | eapply dec_opt_stable; eauto].
 Qed.
 
-(** * Re-encoding never grows, except for embedded DHCPv4 messages (padded to 300 octets) *)
+(** * Re-encoding never grows, except for embedded DHCPv4 messages that get padded to 300 octets.
+      [no_v4 o]: every DHCPv4 message embedded in [o] (at any depth) re-encodes to more than 300 octets,
+      i.e. was not padded (in particular: there is none). *)
 Fixpoint no_v4 (o : opt6) : Prop :=
   let all := fix all (l : list opt6) : Prop := match l with [] => True | x :: r => no_v4 x /\ all r end in
   match o with
-  | ODHCPv4 _ => False
+  | ODHCPv4 p => 300 < length (enc4_bytes p)      (* its encoding exceeds the 300-octet floor: nothing was padded *)
   | OIANA _ _ _ os | OIATA _ os | OIAAddr _ _ _ os | ORelayMsgM _ _ os | ORelayMsgR _ _ _ _ os
   | OIAPD _ _ _ os | OIAPrefix _ _ _ os | O4RD os => all os
   | _ => True
@@ -673,8 +675,11 @@ Proof.
     match goal with E : many_u16 _ = Ok ?cs |- _ => pose proof (many_u16_length _ _ E) end.
     match goal with |- length (enc_val ?o) <= length ?d /\ _ => assert (L : length (enc_val o) <= length d) by (len_simpl; cbn [length] in *; lia) end.
     leaf L.
-  - (* DHCPv4: excluded *)
-    peel H. injection H as <-. destruct NV.
+  - (* DHCPv4: not padded, hence no longer than received *)
+    peel H. injection H as <-. cbn [no_v4] in NV.
+    match goal with E : dec4 _ = Ok _ |- _ => pose proof (dec4_reencode_length _ _ E) as L0 end.
+    match goal with |- length (enc_val ?o) <= length ?d /\ _ => assert (L : length (enc_val o) <= length d) by (cbn [enc_val]; lia) end.
+    leaf L.
   - (* DHCP4o6 *)
     peel H. injection H as <-.
     match goal with E : many_ip16 _ _ = Ok _ |- _ => pose proof (many_ip16_length _ _ _ E) as L0 end.
